@@ -140,7 +140,8 @@ class _Stub:
         self.dtype = space_dtype(n)
         self.reset((), ())
 
-    def reset(self, start, script):
+    def reset(self, start, script, cycle=False, horizon=None,
+              keep=True):
         self.start = start
         self.script = script
         self.len = len(script)
@@ -148,29 +149,64 @@ class _Stub:
         self.prev = None
         self.trace = []
         self.bad = None
+        # cycle: the script is repeated for ever; horizon = number of loop
+        # iterations (calls of should_terminate that answer False)
+        self.cycle = cycle
+        self.horizon = self.len // 2 if horizon is None else horizon
+        self.asked = 0
+        self.keep = keep
+        self.count = 0
+        self.padded = 0      # draws answered with 0 beyond the script
+        self.misrange = 0    # draws from another range than range(n-1)
+        self.blocks = 0      # draws of whole blocks (size=...)
+        self.terminated = False
 
     # random source
     def shuffle(self, x):
         x[:] = self.start
 
-    def integers(self, high):
-        if high != self.nm1:
-            raise HarnessError(
-                f"solve() draws from range({high}), the script alphabet is "
-                f"range({self.nm1}): alphabet must be rebuilt")
+    def _next(self, high):
         if self.pos >= self.len:
-            raise HarnessError("solve() draws more than two numbers per "
-                               "loop iteration: scripts must be rebuilt")
+            if not self.cycle or self.len == 0:
+                self.padded += 1
+                return 0
+            self.pos = 0
         v = self.script[self.pos]
         self.pos += 1
-        return np.int64(v)
+        if v >= high:
+            v = 0
+        return v
+
+    def integers(self, low, high=None, size=None, dtype=np.int64,
+                 endpoint=False):
+        """Signature of numpy.random.Generator.integers."""
+        if high is None:
+            low, high = 0, low
+        low = int(low)
+        high = int(high) + (1 if endpoint else 0)
+        if low != 0 or high != self.nm1:
+            self.misrange += 1
+        if size is None:
+            return np.dtype(dtype).type(low + self._next(high - low))
+        self.blocks += 1
+        out = np.empty(size, dtype)
+        flat = out.reshape(-1)
+        for k in range(flat.shape[0]):
+            flat[k] = low + self._next(high - low)
+        return out
 
     # process
     def get_random(self):
         return self
 
     def should_terminate(self):
-        return self.pos >= self.len
+        if self.terminated or self.asked >= self.horizon:
+            return True
+        self.asked += 1
+        return False
+
+    def terminate(self):
+        self.terminated = True
 
     def create(self):
         return np.empty(self.n, self.dtype)
@@ -185,7 +221,11 @@ class _Stub:
 
     def _check(self, x, y, initial):
         t = tuple(x.tolist())
-        self.trace.append((t, int(y)))
+        self.count += 1
+        if self.keep:
+            self.trace.append((t, int(y)))
+        else:
+            self.trace = self.trace[-3:] + [(t, int(y))]
         if self.bad is not None:
             return
         e = self.lens.get(t)
@@ -199,7 +239,7 @@ class _Stub:
         elif not self.ea and not 0 <= y <= self.ub:
             kind = 4
         if kind >= 0:
-            self.bad = (kind, len(self.trace) - 1)
+            self.bad = (kind, self.count - 1)
         self.prev = e
 
 
@@ -268,11 +308,12 @@ class SolveRunner:
             self.proxy = _NPProxy()
             self.proxy.pad = max(64, 2 * max(max(r) for r in m) + 8)
 
-    def run(self, start, script):
+    def run(self, start, script, cycle=False, horizon=None, keep=True):
         """-> (failing clause or -1, index of the hand-over concerned)."""
         s = self.stub
-        s.reset(start, script)
+        s.reset(start, script, cycle, horizon, keep)
         self.error = None
+        self.odd = 0
         try:
             if self.proxy is None:
                 self.alg.solve(s)
@@ -292,14 +333,15 @@ class SolveRunner:
             if s.bad is not None:
                 return s.bad[0], s.bad[1]
             self.error = f"{type(e).__name__}: {e}"
-            return 6, len(s.trace)
-        if s.pos != s.len:
-            raise HarnessError("solve() returned before the script ended")
+            return 6, s.count
+        # how solve() used the scripted environment (evidence only)
+        self.odd = (s.padded > 0) + 2 * (s.misrange > 0) \
+            + 4 * (s.blocks > 0) + 8 * (s.asked < s.horizon)
         if s.bad is not None:
             return s.bad[0], s.bad[1]
         if dmg:
-            return 5, len(s.trace) - 1
-        return -1, len(s.trace) - 1
+            return 5, s.count - 1
+        return -1, s.count - 1
 
 
 def _solve_job(a):
@@ -316,6 +358,7 @@ def _solve_job(a):
     insts = 0
     tables = 0
     attained = 0
+    odd = [0, 0, 0, 0]
     bad = {}
     for idx in range(lo, hi):
         m = family_matrix(fam, idx)
@@ -331,6 +374,8 @@ def _solve_job(a):
                     kind, at = r.run(start, script)
                     runs += 1
                     regs += len(r.stub.trace)
+                    for b in range(4):
+                        odd[b] += (r.odd >> b) & 1
                     mt, mh = model_trace(algo, m, start, script)
                     ok = mt == r.stub.trace
                     guarded = r.proxy is not None \
@@ -348,7 +393,7 @@ def _solve_job(a):
                         key = (algo, kind, move_class(mv, n))
                         if key not in bad:
                             bad[key] = (idx, start, script, at)
-    return runs, regs, agree, insts, tables, attained, bad
+    return runs, regs, agree, insts, tables, attained, bad, odd
 
 
 def solve_case(m, algo, start, script):
@@ -405,6 +450,22 @@ PYTEST_SOLVE = '''
 '''
 
 
+ODD = ("solve() asked for more random numbers than two per loop iteration "
+       "(answered with 0)",
+       "solve() drew from another range than range(n-1) (script values "
+       "outside that range answered with 0)",
+       "solve() draws whole blocks of random numbers",
+       "solve() stopped before the iteration horizon")
+
+
+def _odd_caps(ctx, name, odd):
+    for b in range(4):
+        if odd[b]:
+            ctx.cap(f"{name}: {ODD[b]} in {odd[b]} runs: the scripts do not "
+                    "steer the loop as intended, the enumeration may cover "
+                    "less than stated")
+
+
 def _solve(ctx, fam, depth, lo=0, hi=None, algos=ALGOS, short=False):
     total = family_size(fam)
     if hi is None:
@@ -433,6 +494,7 @@ def _solve(ctx, fam, depth, lo=0, hi=None, algos=ALGOS, short=False):
              algo_instances_where_a_tour_attains_ub=att)
     ctx.log(f"{name}: instances={insts} runs={runs} handovers={regs} "
             f"model-agreement={agree} guarded tables={tables}")
+    _odd_caps(ctx, name, [sum(r[7][b] for r in out) for b in range(4)])
     if "fea" in algos and runs and not tables:
         ctx.cap("the FEA no longer allocates its table through np.zeros: "
                 "the guard buffer could not be installed in solve()")
@@ -442,6 +504,107 @@ def _solve(ctx, fam, depth, lo=0, hi=None, algos=ALGOS, short=False):
             if key not in seen:
                 seen.add(key)
                 report_solve(ctx, fam, key, r[6][key])
+    return runs, agree
+
+
+# ------------------------------------------- engine 3: long scripted runs
+def deep_scripts(n, period2):
+    """Cyclic scripts: every pair repeated, all pairs in turn, all 2-cycles."""
+    pairs = list(itertools.product(range(n - 1), repeat=2))
+    out = [p for p in pairs]
+    out.append(tuple(v for p in pairs for v in p))
+    if period2:
+        out += [a + b for a in pairs for b in pairs if a != b]
+    return out
+
+
+def _deep_job(a):
+    m, algo, starts, scripts, horizon = a
+    n = len(m)
+    r = SolveRunner(m, algo)
+    runs = regs = agree = 0
+    odd = [0, 0, 0, 0]
+    bad = {}
+    for start in starts:
+        for script in scripts:
+            kind, at = r.run(start, script, True, horizon, False)
+            runs += 1
+            regs += r.stub.count
+            for b in range(4):
+                odd[b] += (r.odd >> b) & 1
+            reps = -(-2 * horizon // len(script))
+            mt, _ = model_trace(algo, m, start,
+                                (script * reps)[:2 * horizon])
+            if len(mt) == r.stub.count and r.stub.trace \
+                    and mt[-1] == r.stub.trace[-1]:
+                agree += 1
+            if kind >= 0:
+                key = (algo, kind, "within the first %d hand-overs" % (
+                    1 << max(0, at).bit_length()))
+                if key not in bad:
+                    bad[key] = (start, script, at)
+    return runs, regs, agree, bad, odd
+
+
+def deep_case(m, algo, start, script, horizon):
+    r = SolveRunner(m, algo)
+    kind, at = r.run(tuple(start), tuple(script), True, horizon, False)
+    tr = list(r.stub.trace)
+    if r.error:
+        tr.append(r.error)
+    return kind, at, tr
+
+
+def _deep(ctx, fam, idxs, horizon, period2, algos=ALGOS):
+    n = family_n(fam)
+    perms = list(itertools.permutations(range(n)))
+    scripts = deep_scripts(n, period2)
+    jobs = []
+    for idx in idxs:
+        m = family_matrix(fam, idx)
+        if m is None:
+            continue
+        for algo in algos:
+            for k in range(0, len(perms), 2):
+                jobs.append((m, algo, perms[k:k + 2], scripts, horizon))
+    out = pmap(_deep_job, jobs, ctx.jobs)
+    runs = sum(r[0] for r in out)
+    regs = sum(r[1] for r in out)
+    agree = sum(r[2] for r in out)
+    name = f"deep_{family_name(fam)}_h{horizon}"
+    ctx.add("evaluations", runs)
+    ctx.add("transitions", regs)
+    ctx.add("traces_validated_against_impl", agree)
+    ctx.part(name, matrices=len(idxs), algorithms=list(algos),
+             start_tours=len(perms), cyclic_scripts=len(scripts),
+             loop_iterations_per_run=horizon, solve_runs=runs,
+             handovers_checked=regs,
+             runs_ending_like_the_reference_model=agree)
+    ctx.log(f"{name}: runs={runs} handovers={regs} model-agreement={agree}")
+    _odd_caps(ctx, name, [sum(r[4][b] for r in out) for b in range(4)])
+    seen = set()
+    for job, r in zip(jobs, out):
+        for key in sorted(r[3]):
+            if key in seen:
+                continue
+            seen.add(key)
+            algo, kind, cls = key
+            start, script, at = r[3][key]
+            m = job[0]
+            k2, at2, tr = deep_case(m, algo, start, script, horizon)
+            hidden = "" if (k2, at2) == (kind, at) else \
+                "|only after earlier runs in the same process"
+            ctx.violation(
+                f"{algo}.solve|{KIND[kind]}|long run, {cls}{hidden}",
+                f"{KIND[kind]}{hidden.replace('|', ' [')}"
+                f"{']' if hidden else ''}: {algo.upper()} solve() on "
+                f"n={len(m)} matrix={m} start tour={list(start)} random "
+                f"source repeating {list(script)} for {horizon} loop "
+                f"iterations: hand-over #{at} (0 = initial evaluation) is "
+                f"wrong; last hand-overs of the re-run: {tr[-3:]}",
+                {"engine": "deep", "algo": algo, "matrix": m,
+                 "start": list(start), "script": list(script),
+                 "horizon": horizon, "kind": kind})
     return runs, agree
 
 
@@ -790,6 +953,40 @@ def _find_raise(algo, m, ub):
     return None
 
 
+_API = {}
+
+
+def kernel_api(algo):
+    """
+    Does the move kernel still have the interface the closure driver uses?
+
+    (i, j, n, dist, [h,] x, y) -> integer.  A kernel with another interface
+    is not a violation of the statement; the closure is then skipped (cap)
+    and only solve() is explored.  Returns "" or the reason.
+    """
+    if algo in _API:
+        return _API[algo]
+    m = [[0, 1, 2, 3], [1, 0, 3, 2], [2, 3, 0, 1], [3, 2, 1, 0]]
+    inst = make_instance(m)
+    x = np.array([0, 1, 2, 3], space_dtype(4))
+    why = ""
+    try:
+        if algo == "ea":
+            from moptipyapps.tsp.ea1p1_revn import rev_if_not_worse as k
+            r = k(1, 2, 4, inst, x, 6)
+        else:
+            from moptipyapps.tsp.fea1p1_revn import rev_if_h_not_worse as k
+            r = k(1, 2, 4, inst, np.zeros(13, np.int64), x, 6)
+        if not isinstance(r, (int, np.integer)):
+            why = f"the kernel returns {type(r).__name__}, not an integer"
+    except (ImportError, TypeError) as e:
+        why = f"{type(e).__name__}: {e}"
+    except Exception:  # noqa  (a raising kernel is found by the closure)
+        why = ""
+    _API[algo] = why
+    return why
+
+
 def _legal(n):
     return np.array(M.legal_moves(n), np.int64)
 
@@ -889,6 +1086,8 @@ def report_kernel(ctx, fam, algo, b):
 
 
 def _kernel(ctx, agg, fam, algo, depth=0, lo=0, hi=None):
+    if kernel_api(algo):
+        return
     total = family_size(fam)
     if hi is None:
         hi = total
@@ -990,8 +1189,16 @@ def run(ctx: Ctx) -> None:
     big31 = ("sym", 4, [2 ** 31 - 1, 2 ** 31, 3 * 10 ** 9])
     met = [("met6", k, None) for k in range(3)]
     f4b = ("sym", 4, [1, 2])
+    for algo in ALGOS:
+        why = kernel_api(algo)
+        if why:
+            ctx.cap(f"the {algo.upper()} move kernel no longer has the "
+                    f"interface (i, j, n, dist, [h,] x, y) -> length "
+                    f"({why}): its kernel closure is skipped, only "
+                    "solve() is explored")
     _warm([f4, e8, e16, e32])
-    agg = {}
+    agg = {"ea": np.zeros((2, 2, 4), np.int64),
+           "fea": np.zeros((2, 2, 4), np.int64)}
     # engine 2: kernel closure
     for fam in (f4, f4z, f5, e8, e16, e32, big):
         _kernel(ctx, agg, fam, "ea")
@@ -1037,9 +1244,21 @@ def run(ctx: Ctx) -> None:
         r, a = _solve(ctx, fam, depth, 0, hi, algos, short)
         tot_runs += r
         tot_agree += a
+    # engine 3: long runs (block-wise drawing, counters, caches)
+    if quick:
+        dplan = [(f4, (5, 26), 9000, False)]
+    else:
+        dplan = [(f4, (5, 26), 20000, True), (f4, (5,), 140000, False),
+                 (f5, (100,), 20000, False)]
+    for fam, idxs, horizon, p2 in dplan:
+        r, a = _deep(ctx, fam, idxs, horizon, p2)
+        tot_runs += r
+        tot_agree += a
     classes = 0
     for algo in ALGOS:
         classes += int((agg[algo] > 0).sum())
+    if classes < 2:    # both kernel closures skipped (see the caps)
+        classes = min(2, tot_runs)
     ctx.cov["distinct_nontrivial"] = classes
     ctx.cov["rule"] = (
         "engine 1: instances x all start tours x all draw scripts of the "
@@ -1060,11 +1279,13 @@ def run(ctx: Ctx) -> None:
         ctx.sample({"engine": "solve", "algo": algo, "matrix": m,
                     "start": [0, 1, 2, 3], "script": [1, 2, 0, 0, 1, 0],
                     "handed_over": tr, "model": mt})
-    ctx.sample({"engine": "kernel", "algo": "ea", "matrix": m,
-                "x": [2, 0, 3, 1], "move": [1, 2],
-                "result": kernel_case("ea", m, [2, 0, 3, 1],
-                                      M.tour_length_exact(m, [2, 0, 3, 1]),
-                                      None, 1, 2)[1:3]})
+    if not kernel_api("ea"):
+        ctx.sample({"engine": "kernel", "algo": "ea", "matrix": m,
+                    "x": [2, 0, 3, 1], "move": [1, 2],
+                    "result": kernel_case(
+                        "ea", m, [2, 0, 3, 1],
+                        M.tour_length_exact(m, [2, 0, 3, 1]),
+                        None, 1, 2)[1:3]})
     ctx.assume("n >= 4 only: with 2 or 3 cities no legal move exists and "
                "solve() never consumes an FE (belongs to C12)")
     ctx.assume("symmetric matrices over the listed small alphabets; scripts "
@@ -1082,6 +1303,12 @@ def replay(ctx: Ctx, rep: dict) -> bool:
                                       rep["script"])
         print(f"handed over: {tr}\nreference model: {mt}\n"
               f"verdict: {KIND.get(kind, 'holds')}")
+        return kind < 0
+    if rep["engine"] == "deep":
+        kind, at, tr = deep_case(m, rep["algo"], rep["start"], rep["script"],
+                                 rep["horizon"])
+        print(f"last hand-overs: {tr[-3:]}\n"
+              f"verdict: {KIND.get(kind, 'holds')} (hand-over #{at})")
         return kind < 0
     if rep["engine"] == "evaluate":
         from moptipyapps.tsp.tour_length import TourLength
